@@ -15,9 +15,38 @@ only deals with classes that have none.
 -/
 import TgModel.Lemmas.IdeSemCore
 import TgModel.Lemmas.IdeSemLive
+import TgModel.Lemmas.Sem10List
 namespace Tg
 namespace Ide
 open Index
+
+/-! ### the types of fields and variables -/
+
+/-- the types that fields and variables of the later cores have: primitive, or a list of primitives -/
+def isCoreTy : Ty → Bool
+  | .list e => isPrimTy e
+  | t => isPrimTy t
+
+theorem isCoreTy_of_prim {t : Ty} (h : isPrimTy t = true) : isCoreTy t = true := by
+  cases t <;> first | exact h | (simp [isPrimTy] at h)
+
+theorem coreCast_sound (sm : SymMap) (a b : Ty) (ha : isCoreTy a = true) (h : litCastOk a b = true) :
+    sm.canBeCastedTo a b = true := by
+  cases a with
+  | list e =>
+    have he : isPrimTy e = true := ha
+    unfold litCastOk at h
+    unfold SymMap.canBeCastedTo
+    cases b with
+    | list b' =>
+      have h' : litCastOk e b' = true := by
+        unfold litCastOk
+        simpa [Ty.canBeCastedTo] using h
+      have := primCast_sound sm e b' he h'
+      unfold SymMap.canBeCastedTo at this
+      simpa [Ty.canBeCastedTo] using this
+    | _ => first | rfl | (simp only [Ty.canBeCastedTo] at h ⊢; exact h)
+  | _ => exact primCast_sound sm _ b ha h
 
 /-! ### `Record::find_field` along the class hierarchy -/
 
@@ -121,7 +150,7 @@ theorem ff_unfold (sm : SymMap) (name : String) (B : Nat) (ho : OlderBelow sm B)
 def Exact (sm : SymMap) (rid : Nat) (env : Env) : Prop :=
   ∀ name : String,
     match env.get name with
-    | some t => isPrimTy t = true ∧ ∃ fid, ff sm name rid = some fid ∧ fid < sm.recordFieldList.size ∧
+    | some t => isCoreTy t = true ∧ ∃ fid, ff sm name rid = some fid ∧ fid < sm.recordFieldList.size ∧
         (sm.recordField fid).typ = t
     | none => ff sm name rid = none
 
@@ -235,33 +264,103 @@ theorem KInv.transport {cenv : CEnv} {B : Nat} {sm sm' : SymMap} (h : KInv cenv 
     h4.transport B h2 hoB hag hsz hf⟩
 
 
+/-! ### variables in scope -/
+
+/-- the lookup that `Scopes::find_local` performs in one scope -/
+def scopeLookup (sm : SymMap) (name : String) (scope : Scope) : Option SymbolId :=
+  match scope.findVariable name with
+  | some id => some (.var id)
+  | none =>
+    let viaRecord : Option SymbolId :=
+      match scope.recordId with
+      | some recordId =>
+        match sm.recordFindField recordId name with
+        | some fieldId => some (.recordField fieldId)
+        | none =>
+          match SymMap.recordFindTemplateArg (sm.record recordId) name with
+          | some t => some (.templateArgument t)
+          | none => none
+      | none => none
+    match viaRecord with
+    | some r => some r
+    | none =>
+      match scope.multiclassId with
+      | some mcId =>
+        match SymMap.multiclassFindTemplateArg (sm.multiclass mcId) name with
+        | some t => some (.templateArgument t)
+        | none => none
+      | none => none
+
+theorem findLocal_eq (s : Scopes) (sm : SymMap) (name : String) :
+    s.findLocal sm name = s.scopes.findSome? (scopeLookup sm name) := rfl
+
+/-- the variables of the scope `sc` are exactly those of `venv` (`defvar`s, with the types of their values) -/
+def VarsOK (sm : SymMap) (sc : Scope) (venv : Env) : Prop :=
+  ∀ name : String,
+    match venv.get name with
+    | some t => isCoreTy t = true ∧ ∃ vid v, sc.nameToVariable[name]? = some vid ∧ sm.variableList[vid]? = some v ∧ v.typ = t
+    | none => sc.nameToVariable[name]? = none
+
+/-- what the outer scopes answer for the names of `gv`: a variable of the listed type -/
+def OuterOK (sm : SymMap) (rest : List Scope) (gv : Env) : Prop :=
+  ∀ name t, gv.get name = some t → isCoreTy t = true ∧
+    ∃ vid v, (∀ sm' : SymMap, rest.findSome? (scopeLookup sm' name) = some (.var vid)) ∧
+      sm.variableList[vid]? = some v ∧ v.typ = t
+
+theorem OuterOK.nil (sm : SymMap) (rest : List Scope) : OuterOK sm rest [] := by
+  intro name t h
+  simp [Env.get] at h
+
+theorem VarsOK.nil (sm : SymMap) (sc : Scope) (h : ∀ k : String, sc.nameToVariable[k]? = none) : VarsOK sm sc [] := by
+  intro name
+  simp only [Env.get, List.find?_nil, Option.map_none]
+  exact h name
+
+theorem VarsOK.mono {sm sm' : SymMap} {sc : Scope} {venv : Env} (h : VarsOK sm sc venv)
+    (hk : ∀ (i : Nat) x, sm.variableList[i]? = some x → sm'.variableList[i]? = some x) : VarsOK sm' sc venv := by
+  intro name
+  have := h name
+  cases hg : venv.get name with
+  | none => rw [hg] at this; exact this
+  | some t =>
+    rw [hg] at this
+    obtain ⟨hp, vid, v, h1, h2, h3⟩ := this
+    exact ⟨hp, vid, v, h1, hk _ _ h2, h3⟩
+
+theorem OuterOK.mono {sm sm' : SymMap} {rest : List Scope} {gv : Env} (h : OuterOK sm rest gv)
+    (hk : ∀ (i : Nat) x, sm.variableList[i]? = some x → sm'.variableList[i]? = some x) : OuterOK sm' rest gv := by
+  intro name t hg
+  obtain ⟨hp, vid, v, h1, h2, h3⟩ := h name t hg
+  exact ⟨hp, vid, v, h1, hk _ _ h2, h3⟩
+
 /-! ### the invariant inside a record body -/
 
-structure PInv (cenv : CEnv) (N : Std.HashMap String Nat) (rid : Nat) (ps : Params) (env : Env) (c : IndexCtx) : Prop where
+structure PInv (cenv : CEnv) (N : Std.HashMap String Nat) (rid : Nat) (ps : Params) (bv gv : Env) (outer : List Scope) (env : Env) (c : IndexCtx) : Prop where
   k : KInv cenv rid c.symbolMap
-  top : ∃ sc rest, c.scopes.scopes = sc :: rest ∧ sc.kind = .record rid ∧ ∀ k : String, sc.nameToVariable[k]? = none
+  top : ∃ sc, c.scopes.scopes = sc :: outer ∧ sc.kind = .record rid ∧ VarsOK c.symbolMap sc bv ∧
+    OuterOK c.symbolMap outer gv
   newest : rid + 1 = c.symbolMap.recordList.size
   exact : Exact c.symbolMap rid env
   tas : TAsOK c.symbolMap rid ps
   trace : c.fileTrace ≠ []
   ntc : c.symbolMap.nameToClass = N
 
-theorem PInv.currentRecordId {cenv : CEnv} {N : Std.HashMap String Nat} {rid : Nat} {ps : Params} {env : Env} {c : IndexCtx} (h : PInv cenv N rid ps env c) :
+theorem PInv.currentRecordId {cenv : CEnv} {N : Std.HashMap String Nat} {rid : Nat} {ps : Params} {bv gv : Env} {outer : List Scope} {env : Env} {c : IndexCtx} (h : PInv cenv N rid ps bv gv outer env c) :
     c.scopes.currentRecordId = some rid := by
-  obtain ⟨sc, rest, hs, hk, _⟩ := h.top
+  obtain ⟨sc, hs, hk, _⟩ := h.top
   unfold Scopes.currentRecordId
   rw [hs]
   simp [Scope.recordId, hk]
 
-theorem PInv.find {cenv : CEnv} {N : Std.HashMap String Nat} {rid : Nat} {ps : Params} {env : Env} {c : IndexCtx} (h : PInv cenv N rid ps env c) (name : String) :
+theorem PInv.find {cenv : CEnv} {N : Std.HashMap String Nat} {rid : Nat} {ps : Params} {bv gv : Env} {outer : List Scope} {env : Env} {c : IndexCtx} (h : PInv cenv N rid ps bv gv outer env c) (name : String) :
     c.symbolMap.recordFindField rid name = ff c.symbolMap name rid :=
   recordFindField_eq_ff _ _ h.k.older rid (by have := h.newest; omega)
 
 /-- declaring the field `name : ty` of the record (a new field entry, registered in the record's own map) -/
-theorem PInv.declare {cenv : CEnv} {N : Std.HashMap String Nat} {rid : Nat} {ps : Params} {env env' : Env} {c : IndexCtx} (h : PInv cenv N rid ps env c)
-    (name : String) (ty : Ty) (hty : isPrimTy ty = true) (loc : FileRange)
+theorem PInv.declare {cenv : CEnv} {N : Std.HashMap String Nat} {rid : Nat} {ps : Params} {bv gv : Env} {outer : List Scope} {env env' : Env} {c : IndexCtx} (h : PInv cenv N rid ps bv gv outer env c)
+    (name : String) (ty : Ty) (hty : isCoreTy ty = true) (loc : FileRange)
     (henv : ∀ n, env'.get n = if n = name then some ty else env.get n) :
-    PInv cenv N rid ps env' (withField c rid ⟨name, ty, rid, loc⟩) := by
+    PInv cenv N rid ps bv gv outer env' (withField c rid ⟨name, ty, rid, loc⟩) := by
   have hrid : rid < c.symbolMap.recordList.size := by have := h.newest; omega
   have hrl : (withField c rid ⟨name, ty, rid, loc⟩).symbolMap.recordList =
       c.symbolMap.recordList.modify rid fun rec =>
@@ -330,19 +429,20 @@ theorem PInv.declare {cenv : CEnv} {N : Std.HashMap String Nat} {rid : Nat} {ps 
         exact ⟨hp, fid, h1, by rw [hfl]; simp; omega, by rw [hfld fid h2]; exact h3⟩
   · exact h.tas.transport (by rw [hrec rid hrid, if_pos rfl]) (Nat.le_refl _) (fun _ _ => rfl)
 
-theorem PInv.addReference {cenv : CEnv} {N : Std.HashMap String Nat} {rid : Nat} {ps : Params} {env : Env} {c : IndexCtx} (h : PInv cenv N rid ps env c)
-    (s : SymbolId) (loc : FileRange) : PInv cenv N rid ps env (c.setSM (c.symbolMap.addReference s loc)) :=
+theorem PInv.addReference {cenv : CEnv} {N : Std.HashMap String Nat} {rid : Nat} {ps : Params} {bv gv : Env} {outer : List Scope} {env : Env} {c : IndexCtx} (h : PInv cenv N rid ps bv gv outer env c)
+    (s : SymbolId) (loc : FileRange) : PInv cenv N rid ps bv gv outer env (c.setSM (c.symbolMap.addReference s loc)) :=
   ⟨h.k.transport (Nat.le_refl _) h.k.older (fun _ _ => rfl) (Nat.le_refl _) (fun _ _ => rfl) (Nat.le_refl _)
       (fun _ _ => rfl) (fun _ _ _ => rfl),
     h.top, h.newest,
     h.exact.transport (rid + 1) (Nat.lt_succ_self _) (fun i hi => h.k.older i (by have := h.newest; omega)) (fun _ _ => rfl) (Nat.le_refl _) (fun _ _ => rfl),
     h.tas.transport rfl (Nat.le_refl _) (fun _ _ => rfl), h.trace, h.ntc⟩
 
-theorem PInv.findLocal {cenv : CEnv} {N : Std.HashMap String Nat} {rid : Nat} {ps : Params} {env : Env} {c : IndexCtx}
-    (h : PInv cenv N rid ps env c) (name : String) (t : Ty) (hg : env.get name = some t) :
-    isPrimTy t = true ∧ ∃ fid, c.symbolMap.recordFindField rid name = some fid ∧
+theorem PInv.findLocal {cenv : CEnv} {N : Std.HashMap String Nat} {rid : Nat} {ps : Params} {bv gv : Env} {outer : List Scope} {env : Env} {c : IndexCtx}
+    (h : PInv cenv N rid ps bv gv outer env c) (name : String) (t : Ty) (hb : bv.get name = none) (hg : env.get name = some t) :
+    isCoreTy t = true ∧ ∃ fid, c.symbolMap.recordFindField rid name = some fid ∧
       c.scopes.findLocal c.symbolMap name = some (.recordField fid) ∧ (c.symbolMap.recordField fid).typ = t := by
-  obtain ⟨sc, rest, hs, hk, hv⟩ := h.top
+  obtain ⟨sc, hs, hk, hv0, _⟩ := h.top
+  have hv : sc.nameToVariable[name]? = none := by have := hv0 name; rw [hb] at this; exact this
   have := h.exact name
   rw [hg] at this
   obtain ⟨hp, fid, hf, _, ht⟩ := this
@@ -353,8 +453,18 @@ theorem PInv.findLocal {cenv : CEnv} {N : Std.HashMap String Nat} {rid : Nat} {p
   simp only [List.findSome?_cons]
   have h1 : sc.findVariable name = none := by
     unfold Scope.findVariable
-    simp [hv name, hk]
+    simp [hv, hk]
   simp only [h1, Scope.recordId, hk, hf]
+
+/-- a field in scope, as `find_field` sees it (the target of a `let`) -/
+theorem PInv.fieldOf {cenv : CEnv} {N : Std.HashMap String Nat} {rid : Nat} {ps : Params} {bv gv : Env} {outer : List Scope} {env : Env} {c : IndexCtx}
+    (h : PInv cenv N rid ps bv gv outer env c) (name : String) (t : Ty) (hg : env.get name = some t) :
+    isCoreTy t = true ∧ ∃ fid, c.symbolMap.recordFindField rid name = some fid ∧ (c.symbolMap.recordField fid).typ = t := by
+  have := h.exact name
+  rw [hg] at this
+  obtain ⟨hp, fid, hf, _, ht⟩ := this
+  rw [← h.find name] at hf
+  exact ⟨hp, fid, hf, ht⟩
 
 /-- the run of the identifier site on a name that the innermost scopes resolve to a template argument -/
 theorem indexIdentifierValue_ta (id : PTree) (c : IndexCtx) (f : Nat) (rest : List Nat) (hft : c.fileTrace = f :: rest)
@@ -399,11 +509,13 @@ theorem ta_lookup (info : Nat → String × Ty × Bool) (l : List (String × Nat
         exact j1
 
 /-- an identifier that is no field in scope and names a template parameter of the record -/
-theorem PInv.findLocalTA {cenv : CEnv} {N : Std.HashMap String Nat} {rid : Nat} {ps : Params} {env : Env} {c : IndexCtx}
-    (h : PInv cenv N rid ps env c) (name : String) (t : Ty) (hn : env.get name = none) (hg : ps.env.get name = some t) :
-    isPrimTy t = true ∧ ∃ tid, c.scopes.findLocal c.symbolMap name = some (.templateArgument tid) ∧
+theorem PInv.findLocalTA {cenv : CEnv} {N : Std.HashMap String Nat} {rid : Nat} {ps : Params} {bv gv : Env} {outer : List Scope} {env : Env} {c : IndexCtx}
+    (h : PInv cenv N rid ps bv gv outer env c) (name : String) (t : Ty) (hb : bv.get name = none) (hn : env.get name = none)
+    (hg : ps.env.get name = some t) :
+    isCoreTy t = true ∧ ∃ tid, c.scopes.findLocal c.symbolMap name = some (.templateArgument tid) ∧
       (c.symbolMap.templateArg tid).typ = t := by
-  obtain ⟨sc, rest, hs, hk, hv⟩ := h.top
+  obtain ⟨sc, hs, hk, hv0, _⟩ := h.top
+  have hv : sc.nameToVariable[name]? = none := by have := hv0 name; rw [hb] at this; exact this
   have hf := h.exact name
   rw [hn] at hf
   simp only at hf
@@ -411,27 +523,98 @@ theorem PInv.findLocalTA {cenv : CEnv} {N : Std.HashMap String Nat} {rid : Nat} 
   obtain ⟨tid, j1, j2, p, hp, j3⟩ := ta_lookup
     (fun i => ((c.symbolMap.templateArg i).name, (c.symbolMap.templateArg i).typ, (c.symbolMap.templateArg i).hasDefaultValue))
     _ ps h.tas.tab name t hg
-  refine ⟨by rw [← j3]; exact h.tas.prim p hp, tid, ?_, j2⟩
+  refine ⟨by rw [← j3]; exact isCoreTy_of_prim (h.tas.prim p hp), tid, ?_, j2⟩
   unfold Scopes.findLocal
   rw [hs]
   simp only [List.findSome?_cons]
   have h1 : sc.findVariable name = none := by
     unfold Scope.findVariable
-    simp [hv name, hk]
+    simp [hv, hk]
   have h2 : SymMap.recordFindTemplateArg (c.symbolMap.record rid) name = some tid := by
     unfold SymMap.recordFindTemplateArg indexMapGet
     rw [← Array.find?_toList]
     exact j1
   simp only [h1, Scope.recordId, hk, hf, h2]
 
+/-- the run of the identifier site on a name that the scopes resolve to a variable -/
+theorem indexIdentifierValue_var (id : PTree) (c : IndexCtx) (f : Nat) (rest : List Nat) (hft : c.fileTrace = f :: rest)
+    (name : String) (loc : FileRange) (hid : identOf f id = some (name, loc)) (vid : Nat)
+    (hres : c.scopes.findLocal c.symbolMap name = some (.var vid)) :
+    (indexIdentifierValue id).run c =
+      .ok (some (c.symbolMap.var vid).typ, c.setSM (c.symbolMap.addReference (.var vid) loc)) := by
+  unfold indexIdentifierValue resolveId
+  simp only [StateT.run_bind, utilsIdentifier_runOf id c f rest hft, hid, Except.ok_bind, IxM.run_get, hres]
+  rfl
+
+theorem var_typ_of_getElem? (sm : SymMap) (vid : Nat) (v : Variable) (h : sm.variableList[vid]? = some v) :
+    (sm.var vid).typ = v.typ := by
+  unfold SymMap.var
+  simp [getElem!_def, h]
+
+/-- a variable of the record body (`defvar` in the body) -/
+theorem PInv.findLocalVar {cenv : CEnv} {N : Std.HashMap String Nat} {rid : Nat} {ps : Params} {bv gv : Env} {outer : List Scope} {env : Env}
+    {c : IndexCtx} (h : PInv cenv N rid ps bv gv outer env c) (name : String) (t : Ty) (hb : bv.get name = some t) :
+    isCoreTy t = true ∧ ∃ vid, c.scopes.findLocal c.symbolMap name = some (.var vid) ∧ (c.symbolMap.var vid).typ = t := by
+  obtain ⟨sc, hs, hk, hv0, _⟩ := h.top
+  have := hv0 name
+  rw [hb] at this
+  obtain ⟨hp, vid, v, h1, h2, h3⟩ := this
+  refine ⟨hp, vid, ?_, by rw [var_typ_of_getElem? _ _ _ h2]; exact h3⟩
+  rw [findLocal_eq, hs]
+  simp only [List.findSome?_cons]
+  have : scopeLookup c.symbolMap name sc = some (.var vid) := by
+    unfold scopeLookup Scope.findVariable
+    simp [h1]
+  rw [this]
+
+/-- a name that nothing in the record scope answers: a variable of the outer scopes (top-level `defvar`) -/
+theorem PInv.findLocalOuter {cenv : CEnv} {N : Std.HashMap String Nat} {rid : Nat} {ps : Params} {bv gv : Env} {outer : List Scope} {env : Env}
+    {c : IndexCtx} (h : PInv cenv N rid ps bv gv outer env c) (name : String) (t : Ty) (hb : bv.get name = none)
+    (hn : env.get name = none) (hp : ps.env.get name = none) (hg : gv.get name = some t) :
+    isCoreTy t = true ∧ ∃ vid, c.scopes.findLocal c.symbolMap name = some (.var vid) ∧ (c.symbolMap.var vid).typ = t := by
+  obtain ⟨sc, hs, hk, hv0, ho⟩ := h.top
+  have hv : sc.nameToVariable[name]? = none := by have := hv0 name; rw [hb] at this; exact this
+  obtain ⟨hpt, vid, v, h1, h2, h3⟩ := ho name t hg
+  refine ⟨hpt, vid, ?_, by rw [var_typ_of_getElem? _ _ _ h2]; exact h3⟩
+  have hf := h.exact name
+  rw [hn] at hf
+  simp only at hf
+  rw [← h.find name] at hf
+  have hta : SymMap.recordFindTemplateArg (c.symbolMap.record rid) name = none := by
+    unfold SymMap.recordFindTemplateArg indexMapGet
+    rw [← Array.find?_toList]
+    have hkeys : (c.symbolMap.record rid).nameToTemplateArg.toList.map (·.1) = ps.map (·.1) := by
+      have := congrArg (List.map (·.1)) h.tas.tab
+      simp only [List.map_map] at this
+      exact this
+    cases hfd : (c.symbolMap.record rid).nameToTemplateArg.toList.find? (fun e => e.1 == name) with
+    | none => rfl
+    | some e =>
+      exfalso
+      have hm := List.mem_of_find?_eq_some hfd
+      have he : e.1 = name := by simpa using List.find?_some hfd
+      have : name ∈ ps.map (·.1) := by rw [← hkeys, ← he]; exact List.mem_map_of_mem hm
+      obtain ⟨q, hq, hqe⟩ := List.mem_map.1 this
+      unfold Params.env Env.get at hp
+      simp only [Option.map_eq_none_iff, List.find?_eq_none, List.mem_map, forall_exists_index, and_imp] at hp
+      have := hp (q.1, q.2.1) q hq rfl
+      simp [hqe] at this
+  rw [findLocal_eq, hs]
+  simp only [List.findSome?_cons]
+  have h0 : scopeLookup c.symbolMap name sc = none := by
+    unfold scopeLookup Scope.findVariable Scope.recordId Scope.multiclassId
+    simp [hv, hk, hf, hta]
+  rw [h0]
+  exact h1 c.symbolMap
+
 /-- the state after `record_mut(rid).parent_list.push(cid)` -/
 def withParent (c : IndexCtx) (rid cid : Nat) : IndexCtx :=
   c.setSM (c.symbolMap.modRecord rid fun rec => { rec with parentList := rec.parentList.push cid })
 
 /-- a new (last) parent `cid`, a class with exactly the fields `flds`: the fields in scope are `env ++ flds` -/
-theorem PInv.pushParent {cenv : CEnv} {N : Std.HashMap String Nat} {rid : Nat} {ps : Params} {env : Env} {c : IndexCtx}
-    (h : PInv cenv N rid ps env c) (cid : Nat) (hcid : cid < rid) (flds : Env) (hex : Exact c.symbolMap cid flds) :
-    PInv cenv N rid ps (env ++ flds) (withParent c rid cid) := by
+theorem PInv.pushParent {cenv : CEnv} {N : Std.HashMap String Nat} {rid : Nat} {ps : Params} {bv gv : Env} {outer : List Scope} {env : Env} {c : IndexCtx}
+    (h : PInv cenv N rid ps bv gv outer env c) (cid : Nat) (hcid : cid < rid) (flds : Env) (hex : Exact c.symbolMap cid flds) :
+    PInv cenv N rid ps bv gv outer (env ++ flds) (withParent c rid cid) := by
   have hrid : rid < c.symbolMap.recordList.size := by have := h.newest; omega
   have hrec : ∀ i, i < c.symbolMap.recordList.size →
       (withParent c rid cid).symbolMap.record i =
@@ -539,10 +722,10 @@ def coreParents3 (cenv : CEnv) : Env → List PTree → Option Env
 section core3
 variable (k : Nat)
 
-theorem parents3_step (cenv : CEnv) (N : Std.HashMap String Nat) (pcl : PTree) (rid : Nat) (ps : Params) (env env' : Env) (c c' : IndexCtx)
-    (hinv : PInv cenv N rid ps env c) (hchk : coreParents3 cenv env (Ast.parentClassListClasses pcl) = some env')
+theorem parents3_step (cenv : CEnv) (N : Std.HashMap String Nat) (pcl : PTree) (rid : Nat) (ps : Params) (bv gv : Env) (outer : List Scope) (env env' : Env) (c c' : IndexCtx)
+    (hinv : PInv cenv N rid ps bv gv outer env c) (hchk : coreParents3 cenv env (Ast.parentClassListClasses pcl) = some env')
     (hrun : (indexParentClassList (mkRec (k + 1)) pcl).run c = .ok ((), c')) :
-    c'.diagnostics = c.diagnostics ∧ PInv cenv N rid ps env' c' := by
+    c'.diagnostics = c.diagnostics ∧ PInv cenv N rid ps bv gv outer env' c' := by
   unfold indexParentClassList at hrun
   obtain ⟨r0, c0, h0, hrun1⟩ := IxM.run_bind_ok hrun
   rw [currentRecordId_run, hinv.currentRecordId] at h0
@@ -611,10 +794,10 @@ theorem parents3_step (cenv : CEnv) (N : Std.HashMap String Nat) (pcl : PTree) (
       exact ⟨q, hi⟩
 
 /-- the value of an accepted initialiser: its type can be cast to `ty`, nothing is reported -/
-theorem init3_value (cenv : CEnv) (N : Std.HashMap String Nat) (rid : Nat) (ps : Params) (env : Env) (ty : Ty) (v : PTree) (c : IndexCtx)
-    (hinv : PInv cenv N rid ps env c) (hci : coreInit2 (env ++ ps.env) ty v = true) :
+theorem init3_value (cenv : CEnv) (N : Std.HashMap String Nat) (rid : Nat) (ps : Params) (bv gv : Env) (outer : List Scope) (env : Env) (ty : Ty) (v : PTree) (c : IndexCtx)
+    (hinv : PInv cenv N rid ps bv gv outer env c) (hci : coreInit2 (bv ++ (env ++ (ps.env ++ gv))) ty v = true) :
     ∃ vt c1, ((mkRec (k + 1)).value v).run c = .ok (some vt, c1) ∧ (∀ sm : SymMap, sm.canBeCastedTo vt ty = true) ∧
-      c1.diagnostics = c.diagnostics ∧ PInv cenv N rid ps env c1 := by
+      c1.diagnostics = c.diagnostics ∧ PInv cenv N rid ps bv gv outer env c1 := by
   obtain ⟨f, rest, hft⟩ : ∃ f rest, c.fileTrace = f :: rest := by
     cases hc : c.fileTrace with
     | nil => exact absurd hc hinv.trace
@@ -641,33 +824,155 @@ theorem init3_value (cenv : CEnv) (N : Std.HashMap String Nat) (rid : Nat) (ps :
       | some vse =>
       rw [hv1, hv2] at hci
       simp only at hci
-      cases hg : Env.get (env ++ ps.env) vname with
+      cases hg : Env.get (bv ++ (env ++ (ps.env ++ gv))) vname with
       | none => rw [hg] at hci; cases hci
       | some t =>
       rw [hg] at hci
       simp only at hci
+      have hidn := identOf_of f id vname vse hv1 hv2
+      rw [Env.get_append] at hg
+      cases hgb : Env.get bv vname with
+      | some t' =>
+        rw [hgb] at hg
+        cases hg
+        obtain ⟨hpt, vid, hfl, hft'⟩ := hinv.findLocalVar vname t hgb
+        have hvrun : ((mkRec (k + 1)).value v).run c = _ :=
+          (indexValue_ident (mkRec k) v id hidv _).trans
+            (indexIdentifierValue_var id _ f rest hft vname ⟨f, vse.1, vse.2⟩ hidn vid hfl)
+        rw [hft'] at hvrun
+        exact ⟨t, _, hvrun, fun sm => coreCast_sound sm t ty hpt hci, rfl, hinv.addReference _ _⟩
+      | none =>
+      rw [hgb] at hg
+      simp only at hg
       rw [Env.get_append] at hg
       cases hge : Env.get env vname with
       | some t' =>
         rw [hge] at hg
         cases hg
-        obtain ⟨hpt, fid, _, hfl, hft'⟩ := hinv.findLocal vname t hge
+        obtain ⟨hpt, fid, _, hfl, hft'⟩ := hinv.findLocal vname t hgb hge
         have hvrun : ((mkRec (k + 1)).value v).run c = _ :=
           (indexValue_ident (mkRec k) v id hidv _).trans
-            (indexIdentifierValue_field id _ f rest hft vname ⟨f, vse.1, vse.2⟩
-              (identOf_of f id vname vse hv1 hv2) fid hfl)
+            (indexIdentifierValue_field id _ f rest hft vname ⟨f, vse.1, vse.2⟩ hidn fid hfl)
         rw [hft'] at hvrun
-        exact ⟨t, _, hvrun, fun sm => primCast_sound sm t ty hpt hci, rfl, hinv.addReference _ _⟩
+        exact ⟨t, _, hvrun, fun sm => coreCast_sound sm t ty hpt hci, rfl, hinv.addReference _ _⟩
       | none =>
-        rw [hge] at hg
-        simp only at hg
-        obtain ⟨hpt, tid, hfl, hft'⟩ := hinv.findLocalTA vname t hge hg
+      rw [hge] at hg
+      simp only at hg
+      rw [Env.get_append] at hg
+      cases hgp : Env.get ps.env vname with
+      | some t' =>
+        rw [hgp] at hg
+        cases hg
+        obtain ⟨hpt, tid, hfl, hft'⟩ := hinv.findLocalTA vname t hgb hge hgp
         have hvrun : ((mkRec (k + 1)).value v).run c = _ :=
           (indexValue_ident (mkRec k) v id hidv _).trans
-            (indexIdentifierValue_ta id _ f rest hft vname ⟨f, vse.1, vse.2⟩
-              (identOf_of f id vname vse hv1 hv2) tid hfl)
+            (indexIdentifierValue_ta id _ f rest hft vname ⟨f, vse.1, vse.2⟩ hidn tid hfl)
         rw [hft'] at hvrun
-        exact ⟨t, _, hvrun, fun sm => primCast_sound sm t ty hpt hci, rfl, hinv.addReference _ _⟩
+        exact ⟨t, _, hvrun, fun sm => coreCast_sound sm t ty hpt hci, rfl, hinv.addReference _ _⟩
+      | none =>
+        rw [hgp] at hg
+        simp only at hg
+        obtain ⟨hpt, vid, hfl, hft'⟩ := hinv.findLocalOuter vname t hgb hge hgp hg
+        have hvrun : ((mkRec (k + 1)).value v).run c = _ :=
+          (indexValue_ident (mkRec k) v id hidv _).trans
+            (indexIdentifierValue_var id _ f rest hft vname ⟨f, vse.1, vse.2⟩ hidn vid hfl)
+        rw [hft'] at hvrun
+        exact ⟨t, _, hvrun, fun sm => coreCast_sound sm t ty hpt hci, rfl, hinv.addReference _ _⟩
+
+/-- the declared type of a field: a primitive type, or (`lists`) `list<T>` with `T` primitive -/
+def coreTypeOf (lists : Bool) (tn : PTree) : Option Ty :=
+  if isPrimTypeNode tn then primTypeOf tn
+  else if lists && tn.kind == .ListType then
+    match Ast.listTypeInnerType tn with
+    | some inner => if isPrimTypeNode inner then (primTypeOf inner).map .list else none
+    | none => none
+  else none
+
+theorem coreTypeOf_core (lists : Bool) (tn : PTree) (ty : Ty) (h : coreTypeOf lists tn = some ty) : isCoreTy ty = true := by
+  unfold coreTypeOf at h
+  split at h
+  · exact isCoreTy_of_prim (primTypeOf_prim tn ty h)
+  · split at h
+    · split at h
+      · rename_i inner _
+        split at h
+        · cases hp : primTypeOf inner with
+          | none => rw [hp] at h; cases h
+          | some et =>
+            rw [hp] at h
+            cases h
+            exact primTypeOf_prim inner et hp
+        · cases h
+      · cases h
+    · cases h
+
+theorem coreTypeOf_run (lists : Bool) (hk : lists = true → 0 < k) (tn : PTree) (ty : Ty)
+    (h : coreTypeOf lists tn = some ty) (c : IndexCtx) : ((mkRec (k + 1)).typ tn).run c = .ok (some ty, c) := by
+  unfold coreTypeOf at h
+  split at h
+  · rename_i hprim
+    have := indexType_prim (mkRec k) tn hprim c
+    rw [h] at this
+    exact this
+  · rename_i hnp
+    split at h
+    · rename_i hl
+      simp only [Bool.and_eq_true, beq_iff_eq] at hl
+      obtain ⟨k', rfl⟩ : ∃ k', k = k' + 1 := ⟨k - 1, by have := hk hl.1; omega⟩
+      split at h
+      · rename_i inner hin
+        split at h
+        · rename_i hpi
+          cases hp : primTypeOf inner with
+          | none => rw [hp] at h; cases h
+          | some et =>
+            rw [hp] at h
+            cases h
+            have hinner : ((mkRec (k' + 1)).typ inner).run c = .ok (some et, c) := by
+              have := indexType_prim (mkRec k') inner hpi c
+              rw [hp] at this
+              exact this
+            show (indexType (mkRec (k' + 1)) tn).run c = _
+            unfold indexType
+            simp only [hl.2, hin, StateT.run_bind, hinner, Except.ok_bind]
+            rfl
+        · cases h
+      · cases h
+    · cases h
+
+/-- an initialiser: a literal or an identifier in scope, or (`lists`) a list literal of literals of one type -/
+def coreInitL (lists : Bool) (scope : Env) (ty : Ty) (v : PTree) : Bool :=
+  coreInit2 scope ty v ||
+    (lists && match listLitType v with
+      | some lt => litCastOk lt ty
+      | none => false)
+
+theorem coreInitL_false (scope : Env) (ty : Ty) (v : PTree) : coreInitL false scope ty v = coreInit2 scope ty v := by
+  simp [coreInitL]
+
+theorem initL_value (lists : Bool) (hk : lists = true → 0 < k) (cenv : CEnv) (N : Std.HashMap String Nat) (rid : Nat)
+    (ps : Params) (bv gv : Env) (outer : List Scope) (env : Env) (ty : Ty) (v : PTree) (c : IndexCtx)
+    (hinv : PInv cenv N rid ps bv gv outer env c) (hci : coreInitL lists (bv ++ (env ++ (ps.env ++ gv))) ty v = true) :
+    ∃ vt c1, ((mkRec (k + 1)).value v).run c = .ok (some vt, c1) ∧ (∀ sm : SymMap, sm.canBeCastedTo vt ty = true) ∧
+      c1.diagnostics = c.diagnostics ∧ PInv cenv N rid ps bv gv outer env c1 := by
+  by_cases h2 : coreInit2 (bv ++ (env ++ (ps.env ++ gv))) ty v = true
+  · exact init3_value k cenv N rid ps bv gv outer env ty v c hinv h2
+  · unfold coreInitL at hci
+    simp only [h2, Bool.false_or, Bool.and_eq_true] at hci
+    obtain ⟨hl, hci⟩ := hci
+    obtain ⟨k', rfl⟩ : ∃ k', k = k' + 1 := ⟨k - 1, by have := hk hl; omega⟩
+    obtain ⟨f, rest, hft⟩ : ∃ f rest, c.fileTrace = f :: rest := by
+      cases hc : c.fileTrace with
+      | nil => exact absurd hc hinv.trace
+      | cons f rest => exact ⟨f, rest, rfl⟩
+    cases hlt : listLitType v with
+    | none => rw [hlt] at hci; cases hci
+    | some lt =>
+      rw [hlt] at hci
+      simp only at hci
+      obtain ⟨et, rfl, het⟩ := listLitType_core v lt hlt
+      refine ⟨.list et, c, ?_, fun sm => coreCast_sound sm _ ty het hci, rfl, hinv⟩
+      exact indexValue_listLit (mkRec (k' + 1)) (fun e lt c h => indexValue_lit (mkRec k') e lt h c) v _ hlt c f rest hft
 
 /-- `let f [{ranges}] = init;`: `f` a field in scope (`env`), `init` may also name one of the parameters `pe` -/
 def coreFieldLet3 (env pe : Env) (n : PTree) : Bool :=
@@ -685,15 +990,36 @@ def coreFieldLet3 (env pe : Env) (n : PTree) : Bool :=
     | _, _ => false
   | none => false
 
-theorem fieldLet3_step (cenv : CEnv) (N : Std.HashMap String Nat) (n : PTree) (rid : Nat) (ps : Params) (env : Env) (c c' : IndexCtx)
-    (hinv : PInv cenv N rid ps env c) (hchk : coreFieldLet3 env ps.env n = true)
+/-- the same with variables in front of the fields (`front`: the `defvar`s of the body) -/
+def coreFieldLetG (lists : Bool) (front env back : Env) (n : PTree) : Bool :=
+  match Ast.fieldLetName n with
+  | some nameNode =>
+    match Ast.identifierValue nameNode, Ast.identifierRange nameNode with
+    | some name, some _ =>
+      match env.get name with
+      | some t =>
+        match Ast.fieldLetValue n with
+        | none => true
+        | some v =>
+          coreInitL lists (front ++ (env ++ back)) (match Ast.fieldLetRangeList n with | some rl => rangeTyp (some rl) | none => t) v
+      | none => false
+    | _, _ => false
+  | none => false
+
+theorem coreFieldLet3_eq (env pe : Env) (n : PTree) : coreFieldLet3 env pe n = coreFieldLetG false [] env pe n := by
+  unfold coreFieldLet3 coreFieldLetG
+  simp only [coreInitL_false]
+  rfl
+
+theorem fieldLetG_step (lists : Bool) (hk : lists = true → 0 < k) (cenv : CEnv) (N : Std.HashMap String Nat) (n : PTree) (rid : Nat) (ps : Params) (bv gv : Env) (outer : List Scope) (env : Env) (c c' : IndexCtx)
+    (hinv : PInv cenv N rid ps bv gv outer env c) (hchk : coreFieldLetG lists bv env (ps.env ++ gv) n = true)
     (hrun : (indexFieldLet (mkRec (k + 1)) n).run c = .ok ((), c')) :
-    c'.diagnostics = c.diagnostics ∧ PInv cenv N rid ps env c' := by
+    c'.diagnostics = c.diagnostics ∧ PInv cenv N rid ps bv gv outer env c' := by
   obtain ⟨f, rest, hft⟩ : ∃ f rest, c.fileTrace = f :: rest := by
     cases hc : c.fileTrace with
     | nil => exact absurd hc hinv.trace
     | cons f rest => exact ⟨f, rest, rfl⟩
-  unfold coreFieldLet3 at hchk
+  unfold coreFieldLetG at hchk
   cases hnn : Ast.fieldLetName n with
   | none => rw [hnn] at hchk; cases hchk
   | some nameNode =>
@@ -712,7 +1038,7 @@ theorem fieldLet3_step (cenv : CEnv) (N : Std.HashMap String Nat) (n : PTree) (r
   | some t =>
   rw [hg] at hchk
   simp only at hchk
-  obtain ⟨hpt, fid, hfind, hfl, hft'⟩ := hinv.findLocal name t hg
+  obtain ⟨hpt, fid, hfind, hft'⟩ := hinv.fieldOf name t hg
   have hid := identOf_of f nameNode name se hiv hir
   unfold indexFieldLet at hrun
   simp only [StateT.run_bind, hnn, utilsIdentifier_runOf nameNode c f rest hft, hid, Except.ok_bind,
@@ -736,7 +1062,7 @@ theorem fieldLet3_step (cenv : CEnv) (N : Std.HashMap String Nat) (n : PTree) (r
       | some v =>
         rw [hv] at hrun hchk
         simp only at hrun hchk
-        obtain ⟨vt, c1, hvr, hcast, hd, hi⟩ := init3_value k cenv N rid ps env _ v _ hinv3 hchk
+        obtain ⟨vt, c1, hvr, hcast, hd, hi⟩ := initL_value k lists hk cenv N rid ps bv gv outer env _ v _ hinv3 hchk
         simp only [StateT.run_bind, hvr, Except.ok_bind, canBeCastedTo_run, hcast, Bool.not_true, Bool.false_eq_true,
           if_false] at hrun
         cases hrun
@@ -748,7 +1074,7 @@ theorem fieldLet3_step (cenv : CEnv) (N : Std.HashMap String Nat) (n : PTree) (r
       | some v =>
         rw [hv] at hrun hchk
         simp only at hrun hchk
-        obtain ⟨vt, c1, hvr, hcast, hd, hi⟩ := init3_value k cenv N rid ps env _ v _ hinv3 hchk
+        obtain ⟨vt, c1, hvr, hcast, hd, hi⟩ := initL_value k lists hk cenv N rid ps bv gv outer env _ v _ hinv3 hchk
         simp only [StateT.run_bind, hvr, Except.ok_bind, canBeCastedTo_run, hcast, Bool.not_true, Bool.false_eq_true,
           if_false] at hrun
         cases hrun
@@ -774,15 +1100,42 @@ def coreFieldDef3 (env pe : Env) (n : PTree) : Option Env :=
     | _, _ => none
   | _, _ => none
 
-theorem fieldDef3_step (cenv : CEnv) (N : Std.HashMap String Nat) (n : PTree) (rid : Nat) (ps : Params) (env env' : Env) (c c' : IndexCtx)
-    (hinv : PInv cenv N rid ps env c) (hchk : coreFieldDef3 env ps.env n = some env')
+/-- the same with variables in front of the fields -/
+def coreFieldDefG (lists : Bool) (front env back : Env) (n : PTree) : Option Env :=
+  match Ast.fieldDefName n, Ast.fieldDefType n with
+  | some nameNode, some tn =>
+    match Ast.identifierValue nameNode, Ast.identifierRange nameNode with
+    | some name, some _ =>
+      match coreTypeOf lists tn with
+      | some ty =>
+        match Ast.fieldDefValue n with
+        | none => some ((name, ty) :: env)
+        | some v => if coreInitL lists (front ++ (((name, ty) :: env) ++ back)) ty v then some ((name, ty) :: env) else none
+      | none => none
+    | _, _ => none
+  | _, _ => none
+
+theorem coreFieldDef3_eq (env pe : Env) (n : PTree) : coreFieldDef3 env pe n = coreFieldDefG false [] env pe n := by
+  unfold coreFieldDef3 coreFieldDefG coreTypeOf
+  simp only [coreInitL_false, Bool.false_and, Bool.false_eq_true, if_false]
+  cases Ast.fieldDefName n <;> cases Ast.fieldDefType n <;> try rfl
+  rename_i nameNode tn
+  simp only
+  cases Ast.identifierValue nameNode <;> cases Ast.identifierRange nameNode <;> try rfl
+  simp only
+  by_cases hp : isPrimTypeNode tn = true
+  · simp only [hp, if_true]; rfl
+  · simp only [hp, Bool.false_eq_true, if_false]
+
+theorem fieldDefG_step (lists : Bool) (hk : lists = true → 0 < k) (cenv : CEnv) (N : Std.HashMap String Nat) (n : PTree) (rid : Nat) (ps : Params) (bv gv : Env) (outer : List Scope) (env env' : Env) (c c' : IndexCtx)
+    (hinv : PInv cenv N rid ps bv gv outer env c) (hchk : coreFieldDefG lists bv env (ps.env ++ gv) n = some env')
     (hrun : (indexFieldDef (mkRec (k + 1)) n).run c = .ok ((), c')) :
-    c'.diagnostics = c.diagnostics ∧ PInv cenv N rid ps env' c' := by
+    c'.diagnostics = c.diagnostics ∧ PInv cenv N rid ps bv gv outer env' c' := by
   obtain ⟨f, rest, hft⟩ : ∃ f rest, c.fileTrace = f :: rest := by
     cases hc : c.fileTrace with
     | nil => exact absurd hc hinv.trace
     | cons f rest => exact ⟨f, rest, rfl⟩
-  unfold coreFieldDef3 at hchk
+  unfold coreFieldDefG at hchk
   cases hnn : Ast.fieldDefName n with
   | none => rw [hnn] at hchk; cases hchk
   | some nameNode =>
@@ -799,19 +1152,14 @@ theorem fieldDef3_step (cenv : CEnv) (N : Std.HashMap String Nat) (n : PTree) (r
   | some se =>
   rw [hiv, hir] at hchk
   simp only at hchk
-  by_cases hprim : isPrimTypeNode tn = true
-  · simp only [hprim, if_true] at hchk
-    cases hty : primTypeOf tn with
+  · cases hty : coreTypeOf lists tn with
     | none => rw [hty] at hchk; cases hchk
     | some ty =>
     rw [hty] at hchk
     simp only at hchk
-    have hpty := primTypeOf_prim tn ty hty
+    have hpty := coreTypeOf_core lists tn ty hty
     have hid := identOf_of f nameNode name se hiv hir
-    have htyp : ((mkRec (k + 1)).typ tn).run c = .ok (some ty, c) := by
-      have := indexType_prim (mkRec k) tn hprim c
-      rw [hty] at this
-      exact this
+    have htyp : ((mkRec (k + 1)).typ tn).run c = .ok (some ty, c) := coreTypeOf_run k lists hk tn ty hty c
     have hinv2 := hinv.declare name ty hpty ⟨f, se.1, se.2⟩ (env' := (name, ty) :: env) (Env.get_cons env name ty)
     unfold indexFieldDef at hrun
     simp only [StateT.run_bind, currentRecordId_run, hinv.currentRecordId, Except.ok_bind, hnn,
@@ -826,18 +1174,16 @@ theorem fieldDef3_step (cenv : CEnv) (N : Std.HashMap String Nat) (n : PTree) (r
     | some v =>
       rw [hv] at hrun hchk
       simp only at hrun hchk
-      by_cases hci : coreInit2 (((name, ty) :: env) ++ ps.env) ty v = true
+      by_cases hci : coreInitL lists (bv ++ (((name, ty) :: env) ++ (ps.env ++ gv))) ty v = true
       · simp only [hci, if_true] at hchk
         cases hchk
-        obtain ⟨vt, c1, hvr, hcast, hd, hi⟩ := init3_value k cenv N rid ps _ ty v _ hinv2 hci
+        obtain ⟨vt, c1, hvr, hcast, hd, hi⟩ := initL_value k lists hk cenv N rid ps bv gv outer _ ty v _ hinv2 hci
         simp only [StateT.run_bind, hvr, Except.ok_bind, canBeCastedTo_run, hcast, Bool.not_true, Bool.false_eq_true,
           if_false] at hrun
         cases hrun
         exact ⟨hd, hi⟩
       · simp only [hci, Bool.false_eq_true, if_false] at hchk
         cases hchk
-  · simp only [hprim, Bool.false_eq_true, if_false] at hchk
-    cases hchk
 
 /-- the items of a body of the third core: field definitions and field lets; the fields in scope afterwards -/
 def coreItems3 (pe : Env) : Env → List PTree → Option Env
@@ -850,12 +1196,12 @@ def coreItems3 (pe : Env) : Env → List PTree → Option Env
     else if it.kind == .FieldLet && coreFieldLet3 env pe it then coreItems3 pe env rest
     else none
 
-theorem items3_step (cenv : CEnv) (N : Std.HashMap String Nat) (items : List PTree) (rid : Nat) (ps : Params) (env env' : Env) (c c' : IndexCtx)
-    (u : PUnit) (hinv : PInv cenv N rid ps env c) (hchk : coreItems3 ps.env env items = some env')
+theorem items3_step (cenv : CEnv) (N : Std.HashMap String Nat) (items : List PTree) (rid : Nat) (ps : Params) (outer : List Scope) (env env' : Env) (c c' : IndexCtx)
+    (u : PUnit) (hinv : PInv cenv N rid ps [] [] outer env c) (hchk : coreItems3 ps.env env items = some env')
     (hrun : (forIn items PUnit.unit fun item _ => do
         indexBodyItem (mkRec (k + 1)) item
         pure (ForInStep.yield PUnit.unit)).run c = .ok (u, c')) :
-    c'.diagnostics = c.diagnostics ∧ PInv cenv N rid ps env' c' := by
+    c'.diagnostics = c.diagnostics ∧ PInv cenv N rid ps [] [] outer env' c' := by
   induction items generalizing env c with
   | nil =>
     simp only [List.forIn_nil, StateT.run_pure] at hrun
@@ -877,7 +1223,8 @@ theorem items3_step (cenv : CEnv) (N : Std.HashMap String Nat) (items : List PTr
           unfold indexBodyItem at j1
           simp only [hkind] at j1
           exact j1
-        obtain ⟨hd1, hinv1⟩ := fieldDef3_step k cenv N it rid ps env env1 c c1 hinv hfd j1'
+        obtain ⟨hd1, hinv1⟩ := fieldDefG_step k false (fun h => nomatch h) cenv N it rid ps [] [] outer env env1 c c1 hinv
+          (by rw [List.append_nil, ← coreFieldDef3_eq]; exact hfd) j1'
         obtain ⟨hd2, r⟩ := ih env1 c1 hinv1 hchk hrun
         exact ⟨hd2.trans hd1, r⟩
     · have hk1 : (it.kind == SyntaxKind.FieldDef) = false := by simpa using hkind
@@ -889,7 +1236,8 @@ theorem items3_step (cenv : CEnv) (N : Std.HashMap String Nat) (items : List PTr
           unfold indexBodyItem at j1
           simp only [hl.1] at j1
           exact j1
-        obtain ⟨hd1, hinv1⟩ := fieldLet3_step k cenv N it rid ps env c c1 hinv hl.2 j1'
+        obtain ⟨hd1, hinv1⟩ := fieldLetG_step k false (fun h => nomatch h) cenv N it rid ps [] [] outer env c c1 hinv
+          (by rw [List.append_nil, ← coreFieldLet3_eq]; exact hl.2) j1'
         obtain ⟨hd2, r⟩ := ih env c1 hinv1 hchk hrun
         exact ⟨hd2.trans hd1, r⟩
       · simp only [hl, Bool.false_eq_true, if_false] at hchk
@@ -907,10 +1255,10 @@ def coreRecordBody3 (cenv : CEnv) (rb : PTree) : Option Env :=
       | some b => coreItems3 [] env (Ast.bodyItems b)
     | none => none
 
-theorem recordBody3_step (cenv : CEnv) (N : Std.HashMap String Nat) (rb : PTree) (rid : Nat) (env' : Env) (c c' : IndexCtx)
-    (hinv : PInv cenv N rid [] [] c) (hchk : coreRecordBody3 cenv rb = some env')
+theorem recordBody3_step (cenv : CEnv) (N : Std.HashMap String Nat) (rb : PTree) (rid : Nat) (outer : List Scope) (env' : Env) (c c' : IndexCtx)
+    (hinv : PInv cenv N rid [] [] [] outer [] c) (hchk : coreRecordBody3 cenv rb = some env')
     (hrun : (indexRecordBody (mkRec (k + 1)) rb).run c = .ok ((), c')) :
-    c'.diagnostics = c.diagnostics ∧ PInv cenv N rid [] env' c' := by
+    c'.diagnostics = c.diagnostics ∧ PInv cenv N rid [] [] [] outer env' c' := by
   unfold coreRecordBody3 at hchk
   unfold indexRecordBody at hrun
   cases hp : Ast.recordBodyParentClassList rb with
@@ -924,7 +1272,7 @@ theorem recordBody3_step (cenv : CEnv) (N : Std.HashMap String Nat) (rb : PTree)
       rw [hps] at hchk
       simp only at hchk
       obtain ⟨_, c1, h1, hrun⟩ := IxM.run_bind_ok hrun
-      obtain ⟨hd1, hinv1⟩ := parents3_step k cenv N pcl rid [] [] env c c1 hinv hps h1
+      obtain ⟨hd1, hinv1⟩ := parents3_step k cenv N pcl rid [] [] [] outer [] env c c1 hinv hps h1
       cases hb : Ast.recordBodyBody rb with
       | none => rw [hb] at hrun hchk; cases hrun; cases hchk; exact ⟨hd1, hinv1⟩
       | some b =>
@@ -934,7 +1282,7 @@ theorem recordBody3_step (cenv : CEnv) (N : Std.HashMap String Nat) (rb : PTree)
         obtain ⟨u, c2, h2, h3⟩ := IxM.run_bind_ok hrun
         simp only [StateT.run_pure] at h3
         cases h3
-        obtain ⟨hd2, hinv2⟩ := items3_step k cenv N _ rid [] env env' c1 c' u hinv1 hchk h2
+        obtain ⟨hd2, hinv2⟩ := items3_step k cenv N _ rid [] outer env env' c1 c' u hinv1 hchk h2
         exact ⟨hd2.trans hd1, hinv2⟩
 
 
@@ -949,12 +1297,14 @@ structure TabInv (cenv : CEnv) (c : IndexCtx) : Prop where
 def SameTab (c c' : IndexCtx) : Prop :=
   c'.diagnostics = c.diagnostics ∧ c'.fileTrace = c.fileTrace ∧ c'.symbolMap.recordList = c.symbolMap.recordList ∧
     c'.symbolMap.recordFieldList = c.symbolMap.recordFieldList ∧ c'.symbolMap.nameToClass = c.symbolMap.nameToClass ∧
-    c'.symbolMap.templateArgList = c.symbolMap.templateArgList
+    c'.symbolMap.templateArgList = c.symbolMap.templateArgList ∧
+    c'.symbolMap.variableList = c.symbolMap.variableList ∧ c'.scopes = c.scopes
 
 instance : KeepRel SameTab where
-  refl := fun _ => ⟨rfl, rfl, rfl, rfl, rfl, rfl⟩
+  refl := fun _ => ⟨rfl, rfl, rfl, rfl, rfl, rfl, rfl, rfl⟩
   trans := fun h1 h2 => ⟨h2.1.trans h1.1, h2.2.1.trans h1.2.1, h2.2.2.1.trans h1.2.2.1, h2.2.2.2.1.trans h1.2.2.2.1,
-    h2.2.2.2.2.1.trans h1.2.2.2.2.1, h2.2.2.2.2.2.trans h1.2.2.2.2.2⟩
+    h2.2.2.2.2.1.trans h1.2.2.2.2.1, h2.2.2.2.2.2.1.trans h1.2.2.2.2.2.1, h2.2.2.2.2.2.2.1.trans h1.2.2.2.2.2.2.1,
+    h2.2.2.2.2.2.2.2.trans h1.2.2.2.2.2.2.2⟩
 
 theorem same_sameFileDefset : Keeps SameTab sameFileDefset := by
   unfold sameFileDefset currentDefsetId withSM
@@ -964,14 +1314,25 @@ theorem same_indexNameValue (v : PTree) : Keeps SameTab (indexNameValue v) := by
   keeps
 theorem same_currentMulticlassId : Keeps SameTab currentMulticlassId := by unfold currentMulticlassId; keeps
 theorem same_nextAnonymousDefName : Keeps SameTab nextAnonymousDefName :=
-  Keeps.modifyGet _ fun _ => ⟨rfl, rfl, rfl, rfl, rfl, rfl⟩
+  Keeps.modifyGet _ fun _ => ⟨rfl, rfl, rfl, rfl, rfl, rfl, rfl, rfl⟩
 theorem same_defsetMut (id : Nat) (g : Defset → Defset) : Keeps SameTab (defsetMut id g) :=
-  Keeps.modifyGet _ fun _ => ⟨rfl, rfl, rfl, rfl, rfl, rfl⟩
-theorem same_scopesPush (kd : ScopeKind) : Keeps SameTab (scopesPush kd) := Keeps.modify _ fun _ => ⟨rfl, rfl, rfl, rfl, rfl, rfl⟩
-theorem same_scopesPop : Keeps SameTab scopesPop := by
-  unfold scopesPop
-  keeps
-  exact Keeps.modify _ fun _ => ⟨rfl, rfl, rfl, rfl, rfl, rfl⟩
+  Keeps.modifyGet _ fun _ => ⟨rfl, rfl, rfl, rfl, rfl, rfl, rfl, rfl⟩
+/-- `scopes.pop()` touches nothing but the scope stack -/
+theorem scopesPop_eqs {c c' : IndexCtx} {a : Unit} (h : scopesPop.run c = .ok (a, c')) :
+    c'.diagnostics = c.diagnostics ∧ c'.fileTrace = c.fileTrace ∧ c'.symbolMap = c.symbolMap ∧
+      ∃ x, c.scopes.scopes = x :: c'.scopes.scopes := by
+  unfold scopesPop at h
+  simp only [StateT.run_bind, IxM.run_get, Except.ok_bind] at h
+  cases hs : c.scopes.scopes with
+  | nil =>
+    have : c.scopes.pop = none := by unfold Scopes.pop; rw [hs]
+    simp only [this] at h
+    cases h
+  | cons x t =>
+    have : c.scopes.pop = some { scopes := t } := by unfold Scopes.pop; rw [hs]
+    simp only [this, IxM.run_modify] at h
+    cases h
+    exact ⟨rfl, rfl, rfl, x, rfl⟩
 
 theorem SameTab.record {c c' : IndexCtx} (h : SameTab c c') (i : Nat) : c'.symbolMap.record i = c.symbolMap.record i := by
   unfold SymMap.record
@@ -991,7 +1352,7 @@ theorem TabInv.same {cenv : CEnv} {c c' : IndexCtx} (hT : TabInv cenv c) (h : Sa
   rw [hsz]
   exact hT.k.transport (Nat.le_of_eq hsz.symm) (by rw [hsz]; exact OlderBelow.same h _ hT.k.older)
     (fun i _ => h.record i) (by rw [h.2.2.2.1]; exact Nat.le_refl _) (fun i _ => h.recordField i)
-    (by rw [h.2.2.2.2.2]; exact Nat.le_refl _) (fun i _ => by unfold SymMap.templateArg; rw [h.2.2.2.2.2])
+    (by rw [h.2.2.2.2.2.1]; exact Nat.le_refl _) (fun i _ => by unfold SymMap.templateArg; rw [h.2.2.2.2.2.1])
     (fun _ _ _ => by rw [h.2.2.2.2.1])
 
 /-- `c5` is `c3` with one more record `r` (and nothing else of the class table changed except, possibly, the class names) -/
@@ -1001,9 +1362,23 @@ structure OpenedRec (r : Record) (c3 c5 : IndexCtx) : Prop where
   recs : c5.symbolMap.recordList = c3.symbolMap.recordList.push r
   flds : c5.symbolMap.recordFieldList = c3.symbolMap.recordFieldList
   tal : c5.symbolMap.templateArgList = c3.symbolMap.templateArgList
+  vars : c5.symbolMap.variableList = c3.symbolMap.variableList
+  scopes : c5.scopes = c3.scopes
 
 theorem OpenedRec.same {r : Record} {c3 c4 c5 : IndexCtx} (h : OpenedRec r c3 c4) (hs : SameTab c4 c5) : OpenedRec r c3 c5 :=
-  ⟨hs.1.trans h.diag, hs.2.1.trans h.trace, hs.2.2.1.trans h.recs, hs.2.2.2.1.trans h.flds, hs.2.2.2.2.2.trans h.tal⟩
+  ⟨hs.1.trans h.diag, hs.2.1.trans h.trace, hs.2.2.1.trans h.recs, hs.2.2.2.1.trans h.flds, hs.2.2.2.2.2.1.trans h.tal,
+    hs.2.2.2.2.2.2.1.trans h.vars, hs.2.2.2.2.2.2.2.trans h.scopes⟩
+
+theorem addRecord_vars (sm : SymMap) (r : Record) (g : Bool) : (sm.addRecord r g).2.variableList = sm.variableList := by
+  unfold SymMap.addRecord
+  simp only
+  cases r.kind <;> cases g <;> simp [SymMap.logDefine]
+
+theorem addMulticlassDef_vars (sm : SymMap) (r : Record) : (sm.addMulticlassDef r).2.variableList = sm.variableList := by
+  simp [SymMap.addMulticlassDef, SymMap.logDefine]
+
+theorem addAnonymousDef_vars (sm : SymMap) (r : Record) : (sm.addAnonymousDef r).2.variableList = sm.variableList := by
+  simp [SymMap.addAnonymousDef, SymMap.logDefine]
 
 theorem addRecord_tab (sm : SymMap) (r : Record) (g : Bool) :
     (sm.addRecord r g).1 = sm.recordList.size ∧ (sm.addRecord r g).2.recordList = sm.recordList.push r ∧
@@ -1040,13 +1415,14 @@ theorem CEnv.get_cons (cenv : CEnv) (name : String) (e : Option (Params × Env))
     simp [h, this]
 
 /-- the state in which a record body is indexed: a new empty record `r` with the scope `Record(id)` on top -/
-theorem PInv.ofOpen {cenv cenv' : CEnv} {c3 c5 c6 : IndexCtx} (hT : TabInv cenv c3) (r : Record)
+theorem PInv.ofOpen {cenv cenv' : CEnv} {c3 c5 c6 : IndexCtx} (hT : TabInv cenv c3) {gv : Env}
+    (houter : OuterOK c3.symbolMap c3.scopes.scopes gv) (r : Record)
     (hr1 : r.parentList = #[]) (hr2 : r.nameToRecordField = #[]) (hr3 : r.nameToTemplateArg = #[])
     (ho : OpenedRec r c3 c5)
     (hcls : ∀ cname e, cenv'.get cname = some e →
       cenv.get cname = some e ∧ c5.symbolMap.nameToClass[cname]? = c3.symbolMap.nameToClass[cname]?)
     (h6 : (scopesPush (.record c3.symbolMap.recordList.size)).run c5 = .ok ((), c6)) :
-    c6.diagnostics = c3.diagnostics ∧ PInv cenv' c5.symbolMap.nameToClass c3.symbolMap.recordList.size [] [] c6 := by
+    c6.diagnostics = c3.diagnostics ∧ PInv cenv' c5.symbolMap.nameToClass c3.symbolMap.recordList.size [] [] gv c3.scopes.scopes [] c6 := by
   unfold scopesPush at h6
   rw [IxM.run_modify] at h6
   cases h6
@@ -1081,7 +1457,11 @@ theorem PInv.ofOpen {cenv cenv' : CEnv} {c3 c5 c6 : IndexCtx} (hT : TabInv cenv 
     · exact e3.transport (sm' := c5.symbolMap) (by rw [hag cid e2]) (by rw [ho.tal]; exact Nat.le_refl _)
         (fun i _ => by unfold SymMap.templateArg; rw [ho.tal])
     · exact e4.transport _ e2 hoB hag (by rw [ho.flds]; exact Nat.le_refl _) (fun i _ => hfld i)
-  · exact ⟨{ kind := .record c3.symbolMap.recordList.size }, c5.scopes.scopes, rfl, rfl, fun k => by simp⟩
+  · refine ⟨{ kind := .record c3.symbolMap.recordList.size }, ?_, rfl, VarsOK.nil _ _ (fun k => by simp), ?_⟩
+    · show ({ kind := .record c3.symbolMap.recordList.size } : Scope) :: c5.scopes.scopes = _
+      rw [ho.scopes]
+    · show OuterOK c5.symbolMap c3.scopes.scopes gv
+      exact houter.mono (fun i x hx => by rw [ho.vars]; exact hx)
   · intro name
     show ff c5.symbolMap name _ = none
     rw [ff_unfold _ name _ hold _ (by omega), hnew, hr1, hr2]
@@ -1090,12 +1470,21 @@ theorem PInv.ofOpen {cenv cenv' : CEnv} {c3 c5 c6 : IndexCtx} (hT : TabInv cenv 
   · show c5.fileTrace ≠ []
     rw [ho.trace]; exact hT.trace
 
+/-- after the `pop` that ends a record body the scope stack is the outer one -/
+theorem PInv.popped {cenv : CEnv} {N : Std.HashMap String Nat} {rid : Nat} {ps : Params} {bv gv : Env} {outer : List Scope}
+    {env : Env} {c4 c5 : IndexCtx} (h : PInv cenv N rid ps bv gv outer env c4) (hpop : scopesPop.run c4 = .ok ((), c5)) :
+    c5.scopes.scopes = outer := by
+  obtain ⟨x, hx⟩ := (scopesPop_eqs hpop).2.2.2
+  obtain ⟨sc, hs, _⟩ := h.top
+  rw [hs] at hx
+  exact (List.cons.inj hx).2.symm
+
 /-- the class table after a record body -/
-theorem PInv.close {cenv' cenvOut : CEnv} {N : Std.HashMap String Nat} {rid : Nat} {ps : Params} {env : Env} {c4 c5 : IndexCtx}
-    (h : PInv cenv' N rid ps env c4)
+theorem PInv.close {cenv' cenvOut : CEnv} {N : Std.HashMap String Nat} {rid : Nat} {ps : Params} {bv gv : Env} {outer : List Scope} {env : Env} {c4 c5 : IndexCtx}
+    (h : PInv cenv' N rid ps bv gv outer env c4)
     (hout : ∀ cname e, cenvOut.get cname = some e →
       cenv'.get cname = some e ∨ (N[cname]? = some rid ∧ e = (ps, env)))
-    (hs : SameTab c4 c5) : TabInv cenvOut c5 := by
+    (hsm : c5.symbolMap = c4.symbolMap) (htr : c5.fileTrace = c4.fileTrace) : TabInv cenvOut c5 := by
   have hT4 : TabInv cenvOut c4 := by
     refine ⟨⟨h.k.older, Nat.le_refl _, fun cname ps' flds hg => ?_⟩, h.trace⟩
     rcases hout cname _ hg with h1 | ⟨h1, h2⟩
@@ -1103,7 +1492,9 @@ theorem PInv.close {cenv' cenvOut : CEnv} {N : Std.HashMap String Nat} {rid : Na
       exact ⟨cid, e1, by have := h.newest; omega, e3, e4⟩
     · cases h2
       exact ⟨rid, by rw [h.ntc]; exact h1, by have := h.newest; omega, h.tas, h.exact⟩
-  exact hT4.same hs
+  refine ⟨?_, by rw [htr]; exact hT4.trace⟩
+  rw [hsm]
+  exact hT4.k
 
 
 /-- `class C [: parents] { … }` of the third core; the class table afterwards -/
@@ -1165,7 +1556,7 @@ theorem indexClass3_step (cenv cenv' : CEnv) (n : PTree) (c c' : IndexCtx) (hT :
     simp only at t4
     have ho : OpenedRec { name := name, kind := .cls, defineLoc := ⟨f, se.1, se.2⟩ } c
         (c.setSM (c.symbolMap.addRecord { name := name, kind := .cls, defineLoc := ⟨f, se.1, se.2⟩ } true).2) :=
-      ⟨rfl, rfl, t2, t3, t5⟩
+      ⟨rfl, rfl, t2, t3, t5, addRecord_vars _ _ _, rfl⟩
     obtain ⟨_, c3, h3, hrun⟩ := IxM.run_bind_ok hrun
     rw [t1] at h3
     have hcls : ∀ cname flds, CEnv.get ((name, none) :: cenv) cname = some flds →
@@ -1182,7 +1573,7 @@ theorem indexClass3_step (cenv cenv' : CEnv) (n : PTree) (c c' : IndexCtx) (hT :
         rw [Std.HashMap.getElem?_insert]
         have : (name == cname) = false := by simpa using fun e' => e e'.symm
         simp [this]
-    obtain ⟨q3, hinv3⟩ := PInv.ofOpen (cenv' := (name, none) :: cenv) hT _ rfl rfl rfl ho hcls h3
+    obtain ⟨q3, hinv3⟩ := PInv.ofOpen (cenv' := (name, none) :: cenv) hT (OuterOK.nil _ _) _ rfl rfl rfl ho hcls h3
     have hN : (c.setSM (c.symbolMap.addRecord { name := name, kind := .cls, defineLoc := ⟨f, se.1, se.2⟩ } true).2).symbolMap.nameToClass[name]? =
         some c.symbolMap.recordList.size := by
       simp only [IndexCtx.setSM_symbolMap, t4]
@@ -1190,11 +1581,11 @@ theorem indexClass3_step (cenv cenv' : CEnv) (n : PTree) (c c' : IndexCtx) (hT :
     have hclose : ∀ (env : Env) (c4 : IndexCtx), c4.diagnostics = c.diagnostics →
         PInv ((name, none) :: cenv)
           (c.setSM (c.symbolMap.addRecord { name := name, kind := .cls, defineLoc := ⟨f, se.1, se.2⟩ } true).2).symbolMap.nameToClass
-          c.symbolMap.recordList.size [] env c4 →
+          c.symbolMap.recordList.size [] [] [] c.scopes.scopes env c4 →
         scopesPop.run c4 = .ok ((), c') → c'.diagnostics = c.diagnostics ∧ TabInv ((name, some ([], env)) :: cenv) c' := by
       intro env c4 q4 hinv4 h5
-      have s5 := same_scopesPop.run _ _ _ h5
-      refine ⟨s5.1.trans q4, hinv4.close ?_ s5⟩
+      have s5 := scopesPop_eqs h5
+      refine ⟨s5.1.trans q4, hinv4.close ?_ s5.2.2.1 s5.2.1⟩
       intro cname flds hg
       rw [CEnv.get_cons] at hg ⊢
       by_cases e : cname = name
@@ -1218,7 +1609,7 @@ theorem indexClass3_step (cenv cenv' : CEnv) (n : PTree) (c c' : IndexCtx) (hT :
         rw [hrb] at hchk
         cases hchk
         obtain ⟨_, c4, h4, hrun⟩ := IxM.run_bind_ok hrun
-        obtain ⟨q4, hinv4⟩ := recordBody3_step k _ _ rb _ env c3 c4 hinv3 hrb h4
+        obtain ⟨q4, hinv4⟩ := recordBody3_step k _ _ rb _ _ env c3 c4 hinv3 hrb h4
         exact hclose env c4 (q4.trans q3) hinv4 hrun
   · simp only [hta, Bool.false_eq_true, if_false] at hchk
     cases hchk
@@ -1231,34 +1622,41 @@ def coreDef3 (cenv : CEnv) (n : PTree) : Bool :=
   | some rb => (coreRecordBody3 cenv rb).isSome
 
 /-- `def`, for any checker `chk` of record bodies that is sound in the state right after the record was opened -/
-theorem indexDefG_step (cenv : CEnv) (chk : PTree → Option Env)
-    (hbody : ∀ (rb : PTree) (env : Env) (N : Std.HashMap String Nat) (rid : Nat) (c6 c7 : IndexCtx),
-      PInv cenv N rid [] [] c6 → chk rb = some env → (indexRecordBody (mkRec (k + 1)) rb).run c6 = .ok ((), c7) →
-      c7.diagnostics = c6.diagnostics ∧ PInv cenv N rid [] env c7)
-    (n : PTree) (c c' : IndexCtx) (hT : TabInv cenv c)
+theorem indexDefG_step (cenv : CEnv) (chk : PTree → Option Env) (gv : Env)
+    (hbody : ∀ (rb : PTree) (env : Env) (N : Std.HashMap String Nat) (rid : Nat) (outer : List Scope) (c6 c7 : IndexCtx),
+      PInv cenv N rid [] [] gv outer [] c6 → chk rb = some env → (indexRecordBody (mkRec (k + 1)) rb).run c6 = .ok ((), c7) →
+      c7.diagnostics = c6.diagnostics ∧ ∃ bv, PInv cenv N rid [] bv gv outer env c7)
+    (n : PTree) (c c' : IndexCtx) (hT : TabInv cenv c) (houter : OuterOK c.symbolMap c.scopes.scopes gv)
     (hchk : ∀ rb, Ast.defRecordBody n = some rb → (chk rb).isSome = true)
-    (hrun : (indexDef (mkRec (k + 1)) n).run c = .ok ((), c')) : c'.diagnostics = c.diagnostics ∧ TabInv cenv c' := by
+    (hrun : (indexDef (mkRec (k + 1)) n).run c = .ok ((), c')) :
+    c'.diagnostics = c.diagnostics ∧ TabInv cenv c' ∧
+      ((Ast.defRecordBody n).isSome = true → c'.scopes.scopes = c.scopes.scopes) := by
   have hfin : ∀ (r : Record) (c3 c5 c6 : IndexCtx), SameTab c c3 → r.parentList = #[] → r.nameToRecordField = #[] →
       r.nameToTemplateArg = #[] → OpenedRec r c3 c5 → c5.symbolMap.nameToClass = c3.symbolMap.nameToClass →
       (scopesPush (.record c3.symbolMap.recordList.size)).run c5 = .ok ((), c6) →
       (∀ rb, Ast.defRecordBody n = some rb → ∃ c7, (indexRecordBody (mkRec (k + 1)) rb).run c6 = .ok ((), c7) ∧
         scopesPop.run c7 = .ok ((), c')) →
-      (Ast.defRecordBody n = none → c' = c6) → c'.diagnostics = c.diagnostics ∧ TabInv cenv c' := by
+      (Ast.defRecordBody n = none → c' = c6) → c'.diagnostics = c.diagnostics ∧ TabInv cenv c' ∧
+        ((Ast.defRecordBody n).isSome = true → c'.scopes.scopes = c.scopes.scopes) := by
     intro r c3 c5 c6 p3 hr1 hr2 hr3 ho hntc h6 hsome hnone
-    obtain ⟨q6, hinv6⟩ := PInv.ofOpen (cenv' := cenv) (hT.same p3) r hr1 hr2 hr3 ho
+    have houter3 : OuterOK c3.symbolMap c3.scopes.scopes gv := by
+      rw [p3.2.2.2.2.2.2.2]
+      exact houter.mono (fun i x hx => by rw [p3.2.2.2.2.2.2.1]; exact hx)
+    obtain ⟨q6, hinv6⟩ := PInv.ofOpen (cenv' := cenv) (hT.same p3) houter3 r hr1 hr2 hr3 ho
       (fun cname flds hg => ⟨hg, by rw [hntc]⟩) h6
     cases hb : Ast.defRecordBody n with
     | none =>
       rw [hnone hb]
-      exact ⟨q6.trans p3.1, hinv6.close (fun _ _ hg => Or.inl hg) (KeepRel.refl _)⟩
+      exact ⟨q6.trans p3.1, hinv6.close (fun _ _ hg => Or.inl hg) rfl rfl, fun h => by cases h⟩
     | some rb =>
       have hchk' := hchk rb hb
       simp only [Option.isSome_iff_exists] at hchk'
       obtain ⟨env, hrb⟩ := hchk'
       obtain ⟨c7, h7, h8⟩ := hsome rb hb
-      obtain ⟨q7, hinv7⟩ := hbody rb env _ _ c6 c7 hinv6 hrb h7
-      have s8 := same_scopesPop.run _ _ _ h8
-      exact ⟨((s8.1.trans q7).trans q6).trans p3.1, hinv7.close (fun _ _ hg => Or.inl hg) s8⟩
+      obtain ⟨q7, bv7, hinv7⟩ := hbody rb env _ _ _ c6 c7 hinv6 hrb h7
+      have s8 := scopesPop_eqs h8
+      exact ⟨((s8.1.trans q7).trans q6).trans p3.1, hinv7.close (fun _ _ hg => Or.inl hg) s8.2.2.1 s8.2.1,
+        fun _ => by rw [hinv7.popped h8, p3.2.2.2.2.2.2.2]⟩
   unfold indexDef at hrun
   obtain ⟨ds, c1, h1, hrun⟩ := IxM.run_bind_ok hrun
   have p1 : SameTab c c1 := same_sameFileDefset.run _ _ _ h1
@@ -1285,7 +1683,7 @@ theorem indexDefG_step (cenv : CEnv) (chk : PTree → Option Env)
         obtain ⟨t1, t2, t3, t4, t5⟩ := addMulticlassDef_tab c3.symbolMap { name := name, kind := .def_, defineLoc := loc }
         have ho : OpenedRec { name := name, kind := .def_, defineLoc := loc } c3
             (c3.setSM (c3.symbolMap.addMulticlassDef { name := name, kind := .def_, defineLoc := loc }).2) :=
-          ⟨rfl, rfl, t2, t3, t5⟩
+          ⟨rfl, rfl, t2, t3, t5, addMulticlassDef_vars _ _, rfl⟩
         split at hrun
         · obtain ⟨_, c5, h5, hrun⟩ := IxM.run_bind_ok hrun
           have s5 := (same_defsetMut _ _).run _ _ _ h5
@@ -1319,7 +1717,7 @@ theorem indexDefG_step (cenv : CEnv) (chk : PTree → Option Env)
         simp only at t4
         have ho : OpenedRec { name := name, kind := .def_, defineLoc := loc } c3
             (c3.setSM (c3.symbolMap.addRecord { name := name, kind := .def_, defineLoc := loc } ds.isNone).2) :=
-          ⟨rfl, rfl, t2, t3, t5⟩
+          ⟨rfl, rfl, t2, t3, t5, addRecord_vars _ _ _, rfl⟩
         split at hrun
         · obtain ⟨_, c5, h5, hrun⟩ := IxM.run_bind_ok hrun
           have s5 := (same_defsetMut _ _).run _ _ _ h5
@@ -1356,7 +1754,7 @@ theorem indexDefG_step (cenv : CEnv) (chk : PTree → Option Env)
       obtain ⟨t1, t2, t3, t4, t5⟩ := addAnonymousDef_tab c3.symbolMap { name := nm, kind := .def_, defineLoc := ⟨f, n.start, n.stop⟩ }
       have ho : OpenedRec { name := nm, kind := .def_, defineLoc := ⟨f, n.start, n.stop⟩ } c3
           (c3.setSM (c3.symbolMap.addAnonymousDef { name := nm, kind := .def_, defineLoc := ⟨f, n.start, n.stop⟩ }).2) :=
-        ⟨rfl, rfl, t2, t3, t5⟩
+        ⟨rfl, rfl, t2, t3, t5, addAnonymousDef_vars _ _, rfl⟩
       obtain ⟨_, c6, h6, hrun⟩ := IxM.run_bind_ok hrun
       refine hfin _ c3 _ c6 p3 rfl rfl rfl ho t4 h6 ?_ ?_
       · intro rb hb
@@ -1370,8 +1768,12 @@ theorem indexDefG_step (cenv : CEnv) (chk : PTree → Option Env)
 
 theorem indexDef3_step (cenv : CEnv) (n : PTree) (c c' : IndexCtx) (hT : TabInv cenv c) (hchk : coreDef3 cenv n = true)
     (hrun : (indexDef (mkRec (k + 1)) n).run c = .ok ((), c')) : c'.diagnostics = c.diagnostics ∧ TabInv cenv c' := by
-  refine indexDefG_step k cenv (coreRecordBody3 cenv)
-    (fun rb env N rid c6 c7 hinv hrb h7 => recordBody3_step k cenv N rb rid env c6 c7 hinv hrb h7) n c c' hT ?_ hrun
+  suffices h : c'.diagnostics = c.diagnostics ∧ TabInv cenv c' ∧
+      ((Ast.defRecordBody n).isSome = true → c'.scopes.scopes = c.scopes.scopes) from ⟨h.1, h.2.1⟩
+  refine indexDefG_step k cenv (coreRecordBody3 cenv) []
+    (fun rb env N rid outer c6 c7 hinv hrb h7 =>
+      let ⟨q, hi⟩ := recordBody3_step k cenv N rb rid outer env c6 c7 hinv hrb h7
+      ⟨q, [], hi⟩) n c c' hT (OuterOK.nil _ _) ?_ hrun
   intro rb hb
   unfold coreDef3 at hchk
   rw [hb] at hchk
